@@ -726,6 +726,10 @@ from ..selftest import Seed, unparse_seed  # noqa: E402
 _CT = "src/odfdo/container.py"
 _DOC = "src/odfdo/document.py"
 SEEDS = [
+    Seed("normalize_path lower-cases member names", "fault", "src/odfdo/container.py",
+         "    return PurePath(path).as_posix()", "    return PurePath(path.lower()).as_posix()", "R03o"),
+    Seed("normalize_path tests for a folder with a slice", "neutral", "src/odfdo/container.py",
+         "    if path.endswith(\"/\"):  # folder", "    if path[-1:] == \"/\":  # folder"),
     Seed("get_part constructs the part from another name than its cache key", "fault", "src/odfdo/document.py",
          "            self.__xmlparts[path] = part = cls(path, self.container)", "            self.__xmlparts[path] = part = cls(path.strip(), self.container)", "R03n"),
     Seed("get_part files the part in two statements", "neutral", "src/odfdo/document.py",
